@@ -331,7 +331,7 @@ def expand_c13(st, seed):
     nv = nin + nunk + 2
     b = 2
     r = dict(kind="sysloss", lkind=lk, dim=dim, th=th, ptab=[[], []], inside=[], border=[], nets=[], eqs=[], wu=[],
-             wform=st["wform"], src="tlc", exc="")
+             wform=st["wform"], wrev=bool(st["wform"] == "dict" and rng.random() < 0.5), src="tlc", exc="")
     tmp = dict(lkind=lk, dim=dim)
     set_inside(tmp, rng, b)
     r["inside"] = tmp["inside"]
@@ -387,3 +387,152 @@ def expand(struct, seed):
     r = EXPANDERS[struct["family"]](struct, seed)
     r["struct"] = {k: v for k, v in struct.items() if k != "kind"}
     return r
+
+
+# ------------------------------------------------------------------------------------------ C02
+def _q(n, d=1):
+    return dict(n=int(n), d=int(d))
+
+
+def expand_eq(st, seed):
+    rng = _rng(seed, st)
+    eq, role = st["eq"], st["role"]
+    val = lambda name, neutral=0: _q(rng.choice([2, 3, -2]) if role in (name, "all") else neutral)
+    r = dict(kind="equation", eq=eq, Tmax=st["Tmax"], layout=st["layout"], dim=st["dim"], role=role, src="tlc", U=[], P=[], par={}, pts=[])
+    if eq == "burgers":
+        r["U"] = [rpoly(rng, 2, 3, 2, must=1)]
+        r["par"] = dict(nu=val("nu"))
+        r["pts"] = [rpoint(rng, 2, True) for _ in range(4)]
+    elif eq == "fisher":
+        d = st["dim"]
+        r["U"] = [rpoly(rng, 1 + d, 3, 2, must=1)]
+        r["par"] = dict(D=val("D"), r=val("r"), g=val("g"))
+        r["pts"] = [rpoint(rng, 1 + d, True) for _ in range(4)]
+    elif eq == "ou":
+        r["U"] = [rpoly(rng, 3, 3, 2, must=1) + [dict(c=1, e=[0, 0, 2])]]
+        r["par"] = dict(alpha=[val("alpha1"), val("alpha2")], mu=[val("mu1"), val("mu2")],
+                        sigma=[_q(rng.choice([2, 4]) if role in ("sigma1", "all") else 0), _q(rng.choice([2, -2]) if role in ("sigma2", "all") else 0)])
+        if role in ("mu1", "mu2"):       # mu only acts through alpha
+            r["par"]["alpha"] = [_q(1), _q(1)]
+        r["pts"] = [rpoint(rng, 3, True) for _ in range(4)]
+    elif eq == "masscons":
+        r["U"] = [rpoly(rng, 2, 3, 2, must=0), rpoly(rng, 2, 3, 2, must=1)]
+        r["pts"] = [rpoint(rng, 2, False) for _ in range(4)]
+    elif eq == "ns":
+        r["U"] = [rpoly(rng, 2, 3, 2, must=0), rpoly(rng, 2, 3, 2, must=1)]
+        r["P"] = rpoly(rng, 2, 3, 2, must=0) + [dict(c=2, e=[0, 1])]
+        r["par"] = dict(rho=_q(rng.choice([2, 4]) if role in ("rho", "all") else 1), nu=val("nu"))
+        r["pts"] = [rpoint(rng, 2, False) for _ in range(4)]
+    else:  # glv: species c_j (1 + t)^m_j, evaluated where 1 + t is a power of two
+        import math
+
+        U = []
+        for j in range(3):
+            c, m = rng.choice([1, 2, 3]), rng.choice([1, 2, 3]) if j == 0 else rng.choice([0, 1, 2])
+            U.append([dict(c=c * math.comb(m, k), e=[k]) for k in range(m + 1)])
+        r["U"] = U
+        r["par"] = dict(growth=val("growth"), carry=val("carry"), inter=[val("inter1"), val("inter2"), val("inter3")])
+        r["pts"] = [[t] for t in (0, 1, 3, 7)]
+        r["distract"] = [rng.choice([5, 7]), rng.choice([11, 13])]
+    return r
+
+
+# ------------------------------------------------------------------------------------------ C10
+def _imat(rng, o, i, lo=-2, hi=2):
+    return [[rng.randint(lo, hi) for _ in range(i)] for _ in range(o)]
+
+
+def _mlp_layers(rng, nin, nout, depth, act, hidden=2):
+    if depth == 1:
+        return [dict(W=_imat(rng, nout, nin), b=[rng.randint(-1, 1) for _ in range(nout)], act="id")]
+    return [dict(W=_imat(rng, hidden, nin), b=[rng.randint(-1, 1) for _ in range(hidden)], act=act),
+            dict(W=_imat(rng, nout, hidden), b=[rng.randint(-1, 1) for _ in range(nout)], act="id")]
+
+
+def expand_net(st, seed):
+    rng = _rng(seed, st)
+    r = dict(kind="net", wrapper=st["wrapper"], eq_type=st["eq_type"], src="tlc", struct={k: v for k, v in st.items() if k != "kind"})
+    if st["wrapper"] in ("pinn", "hyper"):
+        nin = {"ODE": 1, "statio_PDE": st["dimx"], "nonstatio_PDE": 1 + st["dimx"]}[st["eq_type"]]
+        nout = st["nout"]
+        r.update(nin=nin, nout=nout, it=st["it"], ot=st["ot"], pform=st["pform"], tform=st["tform"], depth=st["depth"], act=st["act"],
+                 th=[rng.choice([1, 2, -1]), rng.choice([2, 3, -2])], layers=_mlp_layers(rng, nin, nout, st["depth"], st["act"]),
+                 ins=[[rng.randint(-2, 2) for _ in range(nin)] for _ in range(3)],
+                 oslice={"none": [], "first": [1, 1], "last2": [2, 3]}[st["shared"]], shared=st["shared"])
+        if st["wrapper"] == "hyper":
+            shapes = [dict(o=len(L["W"]), i=len(L["W"][0]), act=L["act"]) for L in r["layers"]]
+            P = sum(s["o"] * s["i"] + s["o"] for s in shapes)
+            r.update(inner=shapes, hyper=[dict(W=_imat(rng, P, 2, -1, 1), b=[rng.randint(-1, 1) for _ in range(P)], act="id")],
+                     hth=[rng.choice([1, 2]), rng.choice([-1, 1, 3])])
+    else:
+        d, R, M, b = st["d"], st["r"], st["m"], st["b"]
+        r.update(d=d, R=R, M=M, b=b, pform=st["pform"], depth=st["depth"], act=st["act"],
+                 mlps=[_mlp_layers(rng, 1, R * M, st["depth"], st["act"]) for _ in range(d)],
+                 xs=[[rng.randint(-2, 2) for _ in range(b)] for _ in range(d)])
+        idxs = [[]]
+        for _ in range(d):
+            idxs = [i + [k + 1] for i in idxs for k in range(b)]
+        r["idxs"] = idxs
+    return r
+
+
+# ------------------------------------------------------------------------------------------ C11
+def poly_mul(p, q):
+    out = {}
+    for a in p:
+        for b in q:
+            e = tuple(x + y for x, y in zip(a["e"], b["e"]))
+            out[e] = out.get(e, 0) + a["c"] * b["c"]
+    return [dict(c=c, e=list(e)) for e, c in out.items() if c]
+
+
+def poly_add(p, q):
+    out = {}
+    for a in list(p) + list(q):
+        e = tuple(a["e"])
+        out[e] = out.get(e, 0) + a["c"]
+    return [dict(c=c, e=list(e)) for e, c in out.items() if c]
+
+
+def spinn_expand(coef, d, R, M):
+    """the polynomial u_m(x) = sum_k prod_dim f_dim[(m-1)R + k](x_dim) of a polynomial SPINN"""
+    fields = []
+    for m in range(M):
+        tot = []
+        for k in range(R):
+            prod = [dict(c=1, e=[0] * d)]
+            for dd in range(d):
+                c = coef[dd][m * R + k]
+                uni = [dict(c=c[p], e=[p if i == dd else 0 for i in range(d)]) for p in range(len(c)) if c[p]]
+                prod = poly_mul(prod, uni or [dict(c=0, e=[0] * d)])
+            tot = poly_add(tot, prod)
+        fields.append(tot or [dict(c=0, e=[0] * d)])
+    return fields
+
+
+def expand_fr(st, seed):
+    rng = _rng(seed, st)
+    d, R, M, b, deg = st["d"], st["R"], st["M"], st["b"], st["deg"]
+    coef = [[[rng.randint(-2, 2) for _ in range(deg + 1)] for _ in range(R * M)] for _ in range(d)]
+    for dd in range(d):                      # no identically-zero feature
+        for j in range(R * M):
+            if not any(coef[dd][j][1:]):
+                coef[dd][j][1] = rng.choice([-1, 1, 2])
+    xs = []
+    for dd in range(d):
+        col = []
+        while len(col) < b:
+            v = rng.randint(0, 2) if (st["withT"] and dd == 0) else rng.randint(-2, 2)
+            if v not in col or len(col) >= 3:
+                col.append(v)
+        xs.append(col)
+    idxs = [[]]
+    for _ in range(d):
+        idxs = [i + [k + 1] for i in idxs for k in range(b)]
+    par = {}
+    if st["op"] == "burgers":
+        par = dict(nu=_q(rng.choice([1, 2, 3])))
+    if st["op"] == "fisher":
+        par = dict(D=_q(rng.choice([1, 2])), r=_q(rng.choice([1, 3])), g=_q(rng.choice([1, 2])))
+    return dict(kind="fwdrev", op=st["op"], d=d, withT=st["withT"], R=R, M=M, b=b, coef=coef, xs=xs, idxs=idxs, par=par, Tmax=st["Tmax"],
+                twin=spinn_expand(coef, d, R, M), src="tlc", struct={k: v for k, v in st.items() if k != "kind"})
